@@ -163,6 +163,7 @@ pub fn triage(ctx: &Ctx, check: &Check, found: Vec<Found>, known: &[Known], budg
         // minimise up to 3 members of each class (they may minimise to different signatures)
         for f in fs.iter().take(3) {
             let mut m = Minimiser {
+                admissible: check.admissible.as_ref(),
                 ctx,
                 oracle: check.oracle.as_ref(),
                 target: Target { prop: f.v.prop, clause: f.v.clause },
